@@ -16,7 +16,7 @@ theorem lock_discipline : Vocab.known Vocab.lockPolicy = true → Generated.acce
 theorem access_table_nonvacuous : Vocab.known Vocab.lockPolicy = true →
     Generated.accesses.length ≥ 100 ∧
     Generated.accesses.any (fun a => a.2.1 = "RetryClient.taskQueue" && a.2.2.1) = true ∧
-    Generated.accesses.any (fun a => a.2.1 = "signaller.chPubAck" && a.2.2.1) = true := Lockset.table_nonvacuous
+    Generated.accesses.any (fun a => a.2.1.startsWith "signaller." && a.2.2.2.any (·.startsWith "signaller.mu")) = true := Lockset.table_nonvacuous
 
 /-- exactly one function calls Transport.Write (`(*BaseClient).write` today); it takes muWrite first and releases it by defer -/
 theorem writes_serialised : Vocab.known Vocab.lockPolicy = true →
